@@ -182,6 +182,13 @@ class Schedule:
         n = self.n
         self.n += 1
         sp = self.spec
+        if sp["kind"] == "prefix":
+            # exhaustive exploration: explicit choices, then always the first runnable task; the sizes of
+            # the runnable sets are recorded so that the caller can enumerate the alternatives
+            ch = sp["choices"]
+            self.branching = getattr(self, "branching", [])
+            self.branching.append(len(runnable))
+            return runnable[ch[n]] if n < len(ch) else runnable[0]
         if sp["kind"] == "choices":
             ch = sp["choices"]
             if n < len(ch):
